@@ -22,6 +22,7 @@ type Result struct {
 	Nontrivial int               `json:"nontrivial"`
 	Mismatches []Mismatch        `json:"mismatches"`
 	NMismatch  int               `json:"n_mismatch"`
+	SigCounts  map[string]int    `json:"sig_counts,omitempty"`
 	Drift      int               `json:"drift"`
 	DriftEx    []string          `json:"drift_examples,omitempty"`
 	Samples    []json.RawMessage `json:"samples"`
@@ -46,9 +47,17 @@ func (r *Result) count(k string) {
 }
 
 const maxMismatchKept = 200
+const maxPerSig = 5
 
 func (r *Result) mismatch(sig, what string, replay any) {
 	r.NMismatch++
+	if r.SigCounts == nil {
+		r.SigCounts = map[string]int{}
+	}
+	r.SigCounts[sig]++
+	if r.SigCounts[sig] > maxPerSig {
+		return
+	}
 	if len(r.Mismatches) < maxMismatchKept {
 		b, _ := json.Marshal(replay)
 		r.Mismatches = append(r.Mismatches, Mismatch{sig, what, b})
